@@ -10,6 +10,11 @@ Proof. reflexivity. Qed.
 Lemma link_topWeight : C13_Gen.TopWeight = 100%Z.
 Proof. reflexivity. Qed.
 
+(* the checkers' own numbers (Exec) are the regenerated ones *)
+Lemma link_exec_constants :
+  Z.of_nat Exec.min_replicas = C13_Gen.minReplicas /\ Z.of_nat Exec.top_weight = C13_Gen.TopWeight.
+Proof. split; reflexivity. Qed.
+
 Lemma cyc_ltb_spec x p q : cyc_ltb x p q = true <-> cyc_lt x p q.
 Proof. unfold cyc_ltb, cyc_lt. lia. Qed.
 
